@@ -30,6 +30,12 @@ pub struct WriteIo {
     pub w: usize,
     pub pend_alt: bool,
     toggle: bool,
+    /// bit i set: the i-th call of poll_write (0-based, first 32 calls) returns Pending once
+    pub write_pend_mask: u32,
+    /// bit i set: the i-th call of poll_flush returns Pending once
+    pub flush_pend_mask: u32,
+    writes: u32,
+    flushes: u32,
     pub shut: Rc<Cell<bool>>,
 }
 
@@ -40,6 +46,10 @@ impl WriteIo {
             w,
             pend_alt,
             toggle: true,
+            write_pend_mask: 0,
+            flush_pend_mask: 0,
+            writes: 0,
+            flushes: 0,
             shut: Rc::new(Cell::new(false)),
         }
     }
@@ -54,11 +64,23 @@ impl AsyncWrite for WriteIo {
                 return Poll::Pending;
             }
         }
+        let k = self.writes;
+        self.writes += 1;
+        if k < 32 && self.write_pend_mask & (1 << k) != 0 {
+            cx.waker().wake_by_ref();
+            return Poll::Pending;
+        }
         let n = if self.w == 0 { buf.len() } else { buf.len().min(self.w) };
         self.out.borrow_mut().extend_from_slice(&buf[..n]);
         Poll::Ready(Ok(n))
     }
-    fn poll_flush(self: Pin<&mut Self>, _: &mut Context<'_>) -> Poll<io::Result<()>> {
+    fn poll_flush(mut self: Pin<&mut Self>, cx: &mut Context<'_>) -> Poll<io::Result<()>> {
+        let k = self.flushes;
+        self.flushes += 1;
+        if k < 32 && self.flush_pend_mask & (1 << k) != 0 {
+            cx.waker().wake_by_ref();
+            return Poll::Pending;
+        }
         Poll::Ready(Ok(()))
     }
     fn poll_shutdown(self: Pin<&mut Self>, _: &mut Context<'_>) -> Poll<io::Result<()>> {
@@ -167,7 +189,23 @@ pub fn drive<F: std::future::Future>(mut f: Pin<&mut F>, cap: usize) -> Option<F
 }
 
 pub fn encode<T: Serialize + DeserializeOwned + Clone + Unpin>(codec: Codec, items: &[T], w: usize, pend: bool, close: bool) -> Result<(Vec<u8>, bool), String> {
-    let io = WriteIo::new(w, pend);
+    encode_with(codec, items, w, pend, close, 0, 0)
+}
+
+/// Writes `items` with `send` (each resolves only when flushed), optionally closes, drops the
+/// transport, and returns what reached the medium.
+pub fn encode_with<T: Serialize + DeserializeOwned + Clone + Unpin>(
+    codec: Codec,
+    items: &[T],
+    w: usize,
+    pend: bool,
+    close: bool,
+    write_pend_mask: u32,
+    flush_pend_mask: u32,
+) -> Result<(Vec<u8>, bool), String> {
+    let mut io = WriteIo::new(w, pend);
+    io.write_pend_mask = write_pend_mask;
+    io.flush_pend_mask = flush_pend_mask;
     let out = io.out.clone();
     let shut = io.shut.clone();
     let framed = Framed::new(io, LengthDelimitedCodec::new());
@@ -435,6 +473,35 @@ fn check_seq<T: Serialize + DeserializeOwned + Clone + Debug + Unpin>(
                     }
                 }
                 Err(e) => fail(st, "C15-partial-write-fails", format!("{label} {codec:?} w={w} pend={pend}: {e}")),
+            }
+        }
+    }
+    // Pending results of the medium at every combination of the first three write calls and the
+    // first two flush calls, with and without a final close: a `send` that resolved has put its
+    // message on the medium (so dropping the writer afterwards loses nothing)
+    if reference.len() <= 4096 {
+        for w in [0usize, 1, 5] {
+            for wm in 0u32..8 {
+                for fm in 0u32..4 {
+                    for close in [false, true] {
+                        if wm == 0 && fm == 0 && close {
+                            continue;
+                        }
+                        st.encodes += 1;
+                        match encode_with(codec, items, w, false, close, wm, fm) {
+                            Ok((b, _)) => {
+                                if b != reference {
+                                    fail(
+                                        st,
+                                        "C15-pending-write-loses-bytes",
+                                        format!("{label} {codec:?}: {} of {} bytes reached the medium (accepting {w} bytes per write, write calls {wm:#b} and flush calls {fm:#b} Pending once, close={close}) although every send had resolved", b.len(), reference.len()),
+                                    );
+                                }
+                            }
+                            Err(e) => fail(st, "C15-partial-write-fails", format!("{label} {codec:?} w={w} write-pending {wm:#b} flush-pending {fm:#b} close={close}: {e}")),
+                        }
+                    }
+                }
             }
         }
     }
